@@ -142,7 +142,20 @@ func (m *SegmentUInt64Map[V]) SetWithCap(key uint64, value V, capacity int64) {
 	// Collect the remainder from the following segments, one lock at a
 	// time and never nested, so two writers can never hold each other's
 	// segment. Stop as soon as the map is back under capacity.
-	for i := uint(1); i < uint(len(m.segments)) && deficit > 0; i++ {
+	//
+	// One pass over the other segments is not always enough: while this
+	// writer walks the ring, others may insert into segments it has already
+	// visited and take their own toll from the segments still ahead of it.
+	// Returning empty-handed then would leave the map above capacity with
+	// nobody left to shrink it. So a writer that has evicted nothing yet
+	// keeps going round — its own segment included, its own key still
+	// protected — until it has paid at least one entry or sees the count
+	// back within capacity. With every other writer at rest the count is
+	// exact, so an entry to evict exists and the next round finds it.
+	// capacity < 1 can never be met (the key just written is never
+	// evicted), so it gets no second round.
+	n := uint(len(m.segments))
+	for i := uint(1); deficit > 0 && (i < n || (deficit == 2 && capacity > 0)); i++ {
 		if m.count.Load() <= capacity {
 			return
 		}
